@@ -13,6 +13,8 @@ pub trait ExRead { type ExternalTraitSpecificationFor: Read; }
 #[verifier::external_trait_specification]
 pub trait ExBufRead: Read { type ExternalTraitSpecificationFor: BufRead; }
 
+pub uninterp spec fn io_err_kind(e: &io::Error) -> io::ErrorKind;
+pub assume_specification [io::Error::kind] (e: &io::Error) -> (r: io::ErrorKind) ensures r == io_err_kind(e);
 pub uninterp spec fn wire<R: ?Sized>(r: &BufReader<R>) -> Seq<u8>;
 pub uninterp spec fn fault_free<R: ?Sized>(r: &BufReader<R>) -> bool;
 /// bytes written so far, in clear, on the stream under this BufReader (reading never changes it)
